@@ -18,6 +18,16 @@ R7  get_media() of both Request flavours (and render_body() of both Response
     read or a local bound to it, never a cut / re-cased / rewritten form
     (frozen table CT_TRANSFORMS) - with the options' default_media_type and
     without switching the 415 off; both flavours pass the same arguments
+R8  q never decides WHETHER a range matches: the not-matching returns of
+    match_score() and the range selection of _parse_media_ranges()/quality()
+    do not read `quality` (shared with C04: r8_q_never_decides_match)
+R9  the resolver compares the requested type with the registered keys in one
+    case form - no one-sided lower()/upper()/casefold() (shared with C12:
+    r9_same_case_form)
+
+R4 also decides the escape set of the resolver closure (through the bridge
+helper _best_match and mediatypes.best_match): only HTTPUnsupportedMediaType
+leaves it - "the designated handler or a 415".
 
 R1's exact-parameter component (criterion 3) is decided semantically: the
 defining expression is evaluated by a small interpreter (_ParamModel) on all
